@@ -25,7 +25,7 @@ def replay_fn(func, a):
     elif func == 'pbcd_fd':
       ok = h.check_pbcd(st, A, list(a['sizes']), a['batch_size'], a['buckets'], False, True)
     elif func == 'mismatch':
-      ok = h.check_mismatch(st, A, a['kind'], a['which'], a['api'])
+      ok = h.check_mismatch(st, A, a['kind'], a['which'], a['api'], a.get('msize', 1), a.get('osize', 2))
     elif func == 'bshuffle':
       # real numpy draws its own permutation/swaps: try many seeds so that the rare draw (e.g. randint == 0) occurs
       ok = all(_bshuffle_real(st, a['n'], a['buffer_size'], a['gen'], seed) for seed in range(40))
@@ -35,11 +35,43 @@ def replay_fn(func, a):
       ok = h.check_repeat(st, a['kind'], a['n'], a['drive'])
     elif func == 'srbfd':
       ok = h.check_srbfd(st, A, list(a['sizes']), a['batch_size'], a['cbuf'], a['ebuf'], a['seed0'], None)
+    elif func == 'srbfd_subset':
+      return _subset_processes([1] * a['n'], 1, a['cbuf'])
     else:
       return False, 'no replay for %s' % func
   except Exception as e:   # pylint: disable=broad-except
     return True, 'real code raises %r' % (e,)
   return (not ok), ('real numpy run violates the oracle' if not ok else 'real run satisfies the oracle')
+
+
+_SUBSET_SCRIPT = """
+import sys, itertools, numpy as np
+from fedjax.core import federated_data as fd, in_memory_federated_data as im
+sizes, batch_size, cbuf = %r, %r, %r
+off, data = 0, {}
+for i, n in enumerate(sizes):
+  data[b'client-%%d' %% i] = {'x': np.arange(off, off + n)}
+  off += n
+sub = fd.SubsetFederatedData(im.InMemoryFederatedData(data), list(data))
+ids = [c for c, _ in itertools.islice(sub.shuffled_clients(buffer_size=cbuf, seed=3), 2 * len(sizes))]
+it = fd.shuffle_repeat_batch_federated_data(sub, batch_size=batch_size, client_buffer_size=cbuf, example_buffer_size=1, seed=3)
+print(ids, [b['x'].tolist() for b in itertools.islice(it, 2)], [c for c, _ in sub.clients()])
+"""
+
+
+def _subset_processes(sizes, batch_size, cbuf):
+  """Replay of a set-order counterexample on the real code: the same call in processes with different hash seeds."""
+  import os
+  import subprocess
+  outs = set()
+  for hs in ('1', '2', '3', '4', '5', '6'):
+    env = dict(os.environ, PYTHONHASHSEED=hs, JAX_PLATFORMS='cpu')
+    r = subprocess.run([sys.executable, '-c', _SUBSET_SCRIPT % (sizes, batch_size, cbuf)], capture_output=True, text=True, env=env, timeout=300)
+    if r.returncode != 0:
+      return True, 'real code raises: %s' % r.stderr.strip().splitlines()[-1][:200]
+    outs.add(r.stdout.strip())
+  return len(outs) > 1, ('the same seeded call gives %d different streams in processes with different hash seeds: %s' % (len(outs), sorted(outs)[:2])
+                         if len(outs) > 1 else 'identical stream in 6 processes with different hash seeds')
 
 
 def _bshuffle_real(st, n, buffer_size, gen, seed):
@@ -72,6 +104,7 @@ def check(run):
                     'in_memory_federated_data.InMemoryFederatedData.clients/shuffled_clients']
   run.trusted += ['CrossHair "Confirmed over all paths"', 'np_lite + oracle tape (shuffle of an item list = symbolic permutation of positions; randint = symbolic value in range)',
                   'tape-free deterministic RNG model for the two-level federated stream (seeded = fixed rotation, each unseeded generator = a different rotation)']
+  run.trusted.append('hash sets of ids modelled as order-free (iteration order = a symbolic choice per run, standing for another process / hash seed)')
   run.assumptions += ['a final batch without any real row (empty clients after a batch boundary) is tolerated: nothing is lost or duplicated',
                       'statistical quality of the shuffle is outside the claim']
   run.bounds = {'clients': '<=3', 'client sizes': '0..3', 'batch_size': '1..3', 'buckets': '1..2', 'stream length (buffered shuffle)': '0..5',
@@ -87,5 +120,5 @@ def check(run):
             _bshuffle_real(st, 5, 2, True, 1), _bsbcd_real(st, A, [2, 0, 3], 2, 3, 1), h.check_srbfd(st, A, [2, 1], 2, 2, 2, True, None)])
   run.witness('oracle-accepts-real-code-on-test-inputs', 'translation', ok)
   specs = [('pbcd', 'prop'), ('pbcd_fd', 'prop'), ('mismatch', 'prop'), ('bshuffle', 'prop'), ('bsbcd', 'prop'), ('repeatable', 'prop'),
-           ('srbfd', 'prop'), ('pbcd_reach', 'reach'), ('bshuffle_nontrivial', 'reach')]
+           ('srbfd', 'prop'), ('srbfd_subset', 'prop'), ('pbcd_reach', 'reach'), ('bshuffle_nontrivial', 'reach')]
   xh.discharge(run, HARNESS, specs, timeout, replay_fn)
